@@ -275,7 +275,7 @@ def main():
     want = set(x for x in a.funcs.split(',') if x)
     for (path, qualname), classes in api.REGISTRY.items():
         for cls in classes:
-            if cls._prop != a.prop:
+            if cls._prop != a.prop or getattr(cls, 'native', True) is False:
                 continue
             if want and f'{path}:{qualname}' not in want and qualname not in want:
                 continue
